@@ -338,12 +338,18 @@ def dispatcher(ctx):
     ok = isinstance(tb[0], ast.If) and norm(tb[0].test) == 'not isinstance(%s, tuple)' % target \
         and isinstance(tb[1], ast.If) and norm(tb[1].test) == 'len(%s) != len(%s)' % (target, spec)
     ctx.ob(ok, u, 'a tuple pattern demands a tuple of the same length')
-    zl = [n for n in ast.walk(B(tup)) if isinstance(n, ast.For)]
-    ok = len(zl) == 1 and norm(zl[0].iter) == 'zip(%s, %s)' % (target, spec) and isinstance(zl[0].target, ast.Tuple)
-    ctx.ob(ok, u, 'tuple items are matched positionally: for %s in %s' % (src(zl[0].target) if zl else None, norm(zl[0].iter) if zl else None))
+    # the positional iteration: a for loop or (normal form of an append loop) a list comprehension
+    zl = []
+    for n in ast.walk(B(tup)):
+        if isinstance(n, ast.For):
+            zl.append((n.target, n.iter, n))
+        elif isinstance(n, ast.ListComp) and len(n.generators) == 1 and not n.generators[0].ifs:
+            zl.append((n.generators[0].target, n.generators[0].iter, n))
+    ok = len(zl) == 1 and norm(zl[0][1]) == 'zip(%s, %s)' % (target, spec) and isinstance(zl[0][0], ast.Tuple)
+    ctx.ob(ok, u, 'tuple items are matched positionally: for %s in %s' % (src(zl[0][0]) if zl else None, norm(zl[0][1]) if zl else None))
     if ok:
-        evs = [c for c in ast.walk(zl[0]) if isinstance(c, ast.Call) and p.is_evaluator_call(u, c)]
-        a, b = [e.id for e in zl[0].target.elts]
+        evs = [c for c in ast.walk(zl[0][2]) if isinstance(c, ast.Call) and p.is_evaluator_call(u, c)]
+        a, b = [e.id for e in zl[0][0].elts]
         ctx.ob(len(evs) == 1 and is_name(evs[0].args[0], a) and is_name(evs[0].args[1], b), u,
                'item i is matched against pattern i: %s' % [norm(e) for e in evs])
     # callable: truthy result accepts; exception or falsy rejects with MatchError
